@@ -1661,6 +1661,12 @@ func resolveIndex(v, index reflect.Value, indexAsStr string) (reflect.Value, err
 			ptr = ptr.Addr()
 		}
 		if method := ptr.MethodByName(indexAsStr); method.IsValid() {
+			if isNil && v.Kind() == reflect.Ptr {
+				if _, valueReceiver := v.Type().Elem().MethodByName(indexAsStr); valueReceiver {
+					// calling it would dereference the nil pointer (a runtime panic inside reflect.Call)
+					return reflect.Value{}, fmt.Errorf("nil pointer evaluating %s.%s", v.Type(), indexAsStr)
+				}
+			}
 			return method, nil
 		}
 	}
